@@ -77,6 +77,14 @@ class Affine:
         return " + ".join(parts).replace("+ -", "- ")
 
 
+class NonZero:
+    """an unknown unsigned integer that is known to be != 0: only (in)equality with 0 is decidable"""
+    __slots__ = ()
+
+    def __repr__(self):
+        return "nonzero"
+
+
 class Ref:
     __slots__ = ("key",)
 
@@ -262,6 +270,17 @@ class Evaluator:
         return ("const", s, c.get("ty"))
 
     def binop(self, op, a, b):
+        if isinstance(a, NonZero) or isinstance(b, NonZero):
+            other = b if isinstance(a, NonZero) else a
+            if isinstance(other, bool):
+                other = int(other)
+            if other == 0 and isinstance(other, int) and op in ("Eq", "Ne"):
+                return int(op == "Ne")
+            if other == 0 and isinstance(other, int) and op in ("Gt", "Lt", "Ge", "Le"):
+                # unsigned: nonzero > 0, nonzero >= 0 ; 0 < nonzero, 0 <= nonzero
+                nz_left = isinstance(a, NonZero)
+                return int((op in ("Gt", "Ge")) == nz_left)
+            raise Unsupported("comparison of an abstract non-zero value with %r" % (other,))
         if op.endswith("WithOverflow"):
             return (self.binop(op[: -len("WithOverflow")], a, b), 0)
         op = op.replace("Unchecked", "")
